@@ -90,6 +90,14 @@ def azimuthal_clause(cl, rng, n, replay):
                 r = (None if rng.random() < 0.5 else float(rng.uniform(0.2, 0.8)), None if rng.random() < 0.5 else float(rng.uniform(8, 20)))
                 h.update_peaks_bounded(search_range_in_hz=r)
                 hist.append(("range", r))
+            if rng.random() < 0.4:
+                # the library's own rejection with a search range of its own (the range it used must survive the round trip too)
+                r = (None if rng.random() < 0.3 else float(rng.uniform(0.2, 0.8)), None if rng.random() < 0.3 else float(rng.uniform(8, 20)))
+                try:
+                    hvsrpy.frequency_domain_window_rejection(h, n=float(rng.choice([2.0, 2.5, 3.0])), max_iterations=int(rng.integers(1, 6)), search_range_in_hz=r)
+                    hist.append(("fdwra", r))
+                except ValueError:
+                    hist.append(("fdwra-no-peak", r))
             if rng.random() < 0.7:
                 for hv in h.hvsrs:
                     has = ~np.isnan(hv._main_peak_frq)
